@@ -121,11 +121,11 @@ Theorem c16_ctor_domain_slice_unsigned : forall (lim : lim_arg) (pos : pynum),
 Proof. exact slice_ctor_unsigned_spec. Qed.
 
 (* --- verified checkers applied to the implementation's floats ------------------------------ *)
-Theorem c16_valid_dist_sound : forall (p : Q) (d : dist), valid_dist p d = true ->
-  nonneg d /\ (Qabs (total d - 1) <= tol_abs /\ Qabs (dI d - (1 - p)) <= tol_abs)%Q.
+Theorem c16_valid_dist_sound : forall (t p : Q) (d : dist), valid_dist_tol t p d = true ->
+  nonneg d /\ (Qabs (total d - 1) <= t /\ Qabs (dI d - (1 - p)) <= t)%Q.
 Proof. exact valid_dist_sound. Qed.
-Theorem c16_close_dist_sound : forall (p : Q) (impl model : dist), close_dist p impl model = true ->
-  (Qabs (dI impl - dI model) <= tol_abs /\
+Theorem c16_close_dist_sound : forall (t p : Q) (impl model : dist), close_dist_tol t p impl model = true ->
+  (Qabs (dI impl - dI model) <= t /\
    Qabs (dX impl - dX model) <= tol_rel * Qabs (dX model) + tol_abs * p + tol_tiny /\
    Qabs (dY impl - dY model) <= tol_rel * Qabs (dY model) + tol_abs * p + tol_tiny /\
    Qabs (dZ impl - dZ model) <= tol_rel * Qabs (dZ model) + tol_abs * p + tol_tiny)%Q.
